@@ -79,6 +79,36 @@ func (h *queryHarness) Gen(r *Rand, tier string, clean bool) any {
 		c.Q = st.Q
 		break
 	}
+	if h.prop == "C11" && r.Chance(0.1) {
+		// grouping on a single extracted string (ID / TYPE of a component) over data in which that string may be empty:
+		// group keys that render as nothing, one grouping column
+		t := u[r.Intn(len(u))]
+		extra := []TSpec{{t[0], 16, t[2]}, {u[r.Intn(len(u))][0], 16, u[r.Intn(len(u))][2]}, {t[0], 17, t[2]}}
+		// (graphs stay disjoint: the multiplicity of a triple stored in two listed graphs is left open)
+		have := map[string]bool{}
+		for _, g := range c.Graphs {
+			for _, x := range g.Ts {
+				have[tripleKey(x.Triple())] = true
+			}
+		}
+		for _, x := range extra {
+			if k := tripleKey(x.Triple()); !have[k] && r.Chance(0.8) {
+				have[k] = true
+				gi := r.Intn(len(c.Graphs))
+				c.Graphs[gi].Ts = append(c.Graphs[gi].Ts, x)
+			}
+		}
+		cl := QClause{S: Tm{K: "b", B: "?s"}, P: Tm{K: "b", B: "?p", IDb: "?id"}, O: Tm{K: "b", B: "?o"}}
+		if r.Chance(0.3) {
+			cl.S.Ty = "?ty"
+		}
+		agg := []string{"count", "countd", "sum", "count"}
+		c.Q = &Query{From: graphNames(c.Graphs), Where: []QClause{cl}, GroupBy: []string{"?id"},
+			Proj: []Proj{{B: "?id"}, {B: "?s", As: "?n", Agg: agg[r.Intn(2)]}, {B: "?o", As: "?m", Agg: agg[r.Intn(2)]}}}
+		if cl.S.Ty != "" && r.Bool() {
+			c.Q.GroupBy, c.Q.Proj[0] = []string{"?ty"}, Proj{B: "?ty"}
+		}
+	}
 	if h.prop == "C10" && r.Chance(0.12) {
 		// a fully specified OPTIONAL clause with AS aliases, one already bound and one new: the only way to a
 		// left join on partially overlapping bindings (range join) through BQL
